@@ -20,7 +20,8 @@ open Pyro Pyro.Registry
 
 /-! ### obligations about the extracted facts -/
 
-/-- **C16_gen_fixes.** In the current source all five repairs are present: the type-replacement hook
+/-- **C16_gen_fixes.** In the current code all five repairs are present (each switch is the observed outcome of
+    the witness history of its finding on a real Daemon, so a refactoring that keeps the behaviour keeps the switch): the type-replacement hook
     checks that the object owns its entry (F16a), `register` dereferences weak registrations in its
     identity test (F16b) and refuses the daemon's id (F16c), `unregister(obj)` checks the owner (F16d),
     the weak finalizer checks the owner (F16e).  Hence `Cfg.fixed` is the model of the current source. -/
@@ -28,30 +29,34 @@ theorem C16_gen_fixes :
     (⟨Pyro.Gen.C16.autoProxyChecksEntry, Pyro.Gen.C16.identityUnpacksWeak, Pyro.Gen.C16.refuseDaemonName,
       Pyro.Gen.C16.unregChecksOwner, Pyro.Gen.C16.finalizerChecksOwner⟩ : Cfg) = Cfg.fixed := by decide
 
-/-- **C16_gen_shape.** The source shapes the model copies unconditionally: `unregister` returns early
-    for the daemon's id, `DaemonObject.registered` lists the dict keys, `handleRequest` looks the object
-    up with `_unpack_weakref(self.objectsById.get(objId))`, `Daemon.__init__` puts exactly the
-    DaemonObject into the dict, `class_to_dict` clears `_pyroDaemon`, and the serializers with a working
-    type-replacement hook are among the three the model distinguishes (serpent and json always). -/
+/-- **C16_gen_shape.** Facts the model copies unconditionally, each obtained by probing the current code
+    (not by matching its spelling): `unregister` leaves the daemon's own entry alone (by id and when given the
+    DaemonObject), `DaemonObject.registered()` is the key list of the table (order and weak registrations
+    included), a new daemon's table holds exactly its DaemonObject, `class_to_dict` clears `_pyroDaemon`;
+    from the source: `handleRequest` finds the object through the table and the weak-reference unpacking, and
+    the serializers with a working type-replacement hook are among the three the model distinguishes
+    (serpent and json always). -/
 theorem C16_gen_shape :
     Pyro.Gen.C16.unregisterGuardsDaemonName = true ∧
-    Pyro.Gen.C16.registeredReturns = "return list(self.daemon.objectsById.keys())" ∧
+    Pyro.Gen.C16.registeredIsKeys = true ∧
     Pyro.Gen.C16.dispatchLookup = true ∧ Pyro.Gen.C16.initDirect = true ∧
     Pyro.Gen.C16.classToDictClearsDaemon = true ∧
     (∀ n ∈ Pyro.Gen.C16.hookSerializers, n ∈ ["serpent", "json", "msgpack"]) ∧
     "serpent" ∈ Pyro.Gen.C16.hookSerializers ∧ "json" ∈ Pyro.Gen.C16.hookSerializers := by decide
 
-/-- **C16_gen_order.** `Daemon.register` performs its steps in the order the model assumes — all checks,
-    then the attribute assignments (which may raise for objects that cannot carry attributes), then the
-    type-replacement hooks, and only then the table entry and the finalizer — so a registration that fails
-    has not touched the table (`C16_failed_register_unchanged`); and `default()` of the json and msgpack
-    serializers consults the type replacement *before* any builtin conversion, so a registered object whose
-    class derives from set / UUID / Decimal / datetime / array is proxied like any other (the model's
+/-- **C16_gen_order.** The *effects* of `Daemon.register`, observed on instrumented arguments (a table that
+    records lookups and insertions, an object that records attribute assignments, recording serializers and
+    a recording `weakref.finalize`), happen in the order the model assumes: the checks' table lookups, then
+    the attribute assignments (which may raise for objects that cannot carry attributes), then the hook
+    installation, and only then the table insertion and the finalizer — so a registration that fails has not
+    touched the table (`C16_failed_register_unchanged`).  And for json and msgpack, for each builtin base type
+    that `default()` converts (set, UUID, Decimal, datetime, date, array), a registered type replacement wins
+    over the conversion — so a registered object of such a class is proxied like any other (the model's
     `returnObj` runs the hook first for every object and serializer). -/
 theorem C16_gen_order :
-    Pyro.Gen.C16.registerOrder = ["idcheck", "classcheck", "forcecheck", "attrs", "hooks", "insert", "finalize", "return"] ∧
+    Pyro.Gen.C16.registerEffects = ["lookup", "attrs", "hooks", "insert", "finalize", "return"] ∧
     (∀ p ∈ Pyro.Gen.C16.defaultHookFirst, p.2 = true) ∧
-    ("JsonSerializer", true) ∈ Pyro.Gen.C16.defaultHookFirst := by decide
+    ("json:set", true) ∈ Pyro.Gen.C16.defaultHookFirst ∧ ("json:array", true) ∈ Pyro.Gen.C16.defaultHookFirst := by decide
 
 /-! ### the property -/
 
